@@ -709,7 +709,8 @@ mod c13_iso {
             rng.shuffle(&mut cl);
             cl.truncate(2 + rng.usize_below(5));
             let tot = if specified { format!("s{n}") } else { "i".to_string() };
-            out.push(format!("c13.iso {a} {rd} {sz} {tot} {}", script(rng, &cl, 1 + k % 2, n, specified, rng.usize_below(6))));
+            let mode = rng.usize_below(6);
+            out.push(format!("c13.iso {a} {rd} {sz} {tot} {}", script(rng, &cl, 1 + k % 2, n, specified, mode)));
         }
         out
     }
